@@ -25,7 +25,7 @@ REGISTRY = dict(
     text=("Proof (unbounded): the progress value regenerated from _update_current_progress_remaining lies in [0,1], never increases when num_timesteps grows, equals 1 - num/total up to the target and 0 beyond "
           "(F4 repaired in /repo); along any learn() the progress at consecutive train() calls is in [0,1] and non-increasing; num_timesteps advances by n_envs per vectorised step; a callback stop ends the rollout "
           "at that very step and no train() follows; with equal rollouts learn() ends at the first rollout boundary at or after the target and on-policy trains once per rollout; reset_num_timesteps semantics "
-          "from the regenerated _setup_learn statements; off-policy: no train() at or before learning_starts, gradient steps = configured value or (for -1) the timesteps of that rollout, never 0. "
+          "from the regenerated _setup_learn statements; minibatches per pass = ceil(N/b) and PPO's truncated-minibatch warning law; DQN exploration schedule range/monotonicity; off-policy: no train() at or before learning_starts, gradient steps = configured value or (for -1) the timesteps of that rollout, never 0. "
           "Tie: guards, increments, gate and selection expressions are regenerated from /repo on every run + counting correspondence on the six algorithms."),
     note=("Trusted: Coq 8.16.1 kernel (vm_compute, no native_compute), translate/py2coq.py + specs/learnloop.py, harness/c12.py, Python/numpy/torch. "
           "Not verified: float evaluation of 1 - num/total (compared with the rational model at 1e-12), the optimizer and autograd, PPO's early stop by target_kl (only the upper bound on updates is checked then), "
@@ -35,7 +35,7 @@ REGISTRY = dict(
 )
 
 HEADER = """From Coq Require Import List ZArith QArith Bool.
-From SB3V Require Import Lib.QUtil Model.LearnLoop.
+From SB3V Require Import Lib.QUtil Model.LearnLoop Gen.Frag_learnloop.
 Import ListNotations.
 Local Open Scope Z_scope.
 """
@@ -163,12 +163,13 @@ def run_impl(cfg):
     class CB(BaseCallback):
         def __init__(self, stop_step):
             super().__init__()
-            self.nums, self.k, self.stop_step, self.progress = [], 0, stop_step, []
+            self.nums, self.k, self.stop_step, self.progress, self.eps = [], 0, stop_step, [], []
 
         def _on_step(self):
             self.k += 1
             self.nums.append(int(self.model.num_timesteps))
             self.progress.append(float(self.model._current_progress_remaining))
+            self.eps.append(float(getattr(self.model, "exploration_rate", -1.0)))
             return not (self.stop_step is not None and self.k == self.stop_step)
 
     out = {"calls": [], "init_lr_args": list(rec["lr_args"])}
@@ -178,7 +179,7 @@ def run_impl(cfg):
         a0, c0 = len(rec["lr_args"]), len(rec["clip_args"])
         cb = CB(call.get("stop_at_step"))
         model.learn(call["total"], callback=cb, reset_num_timesteps=call["reset"])
-        out["calls"].append({"start_num": start_num, "nums": cb.nums, "cb_progress": cb.progress, "final": int(model.num_timesteps),
+        out["calls"].append({"start_num": start_num, "nums": cb.nums, "cb_progress": cb.progress, "cb_eps": cb.eps, "final": int(model.num_timesteps),
                              "trains": [dict(t) for t in trains], "lr_args": rec["lr_args"][a0:], "clip_args": rec["clip_args"][c0:],
                              "total_used": int(model._total_timesteps), "end_progress": float(model._current_progress_remaining)})
     return out
@@ -288,6 +289,15 @@ def oracle(cfg, impl):
             inc = [(a, b) for a, b in zip(seq, seq[1:]) if b > a + 1e-15]
             if inc:
                 probs.append(("oracle-progress-increases-during-call", f"{where}: {nm} went from {inc[0][0]!r} to {inc[0][1]!r}"))
+        # (6) DQN: exploration_rate = linear schedule (1.0 -> 0.05 over the first 10 %) of the progress, after every env step
+        if cfg["algo"] == "DQN":
+            for k, (p, eps) in enumerate(zip(rc["cb_progress"], rc["cb_eps"])):
+                if ci == 0 and k == 0:
+                    continue                     # before the first _on_step the rate is its initial 0.0
+                want = 0.05 if (1 - p) > 0.1 else 1.0 + (1 - p) * (0.05 - 1.0) / 0.1
+                if abs(eps - want) > 1e-12:
+                    probs.append(("oracle-exploration-rate-not-schedule-of-progress", f"{where}: env step {k}: exploration_rate {eps!r} with progress {p!r}, schedule gives {want!r}"))
+                    break
         num = rc["final"]
         phase += len(rc["nums"])
     return probs
@@ -315,6 +325,9 @@ def model_exprs(cfg, impl):
         ps = [Fraction(t["progress"]) for t in rc["trains"]]
         ns = [t["num"] for t in rc["trains"]]
         exprs.append(f"qclose_list 0 (1 # 1000000000000)%Q (map (fun n => progress n {coq_Z(target)}) {coq_list(ns, coq_Z)}) {coq_list(ps, coq_Q)}")
+        if cfg["algo"] == "DQN":
+            pe = [(p, e) for k, (p, e) in enumerate(zip(rc["cb_progress"], rc["cb_eps"])) if not (len(exprs) == 2 and k == 0)][:12]
+            exprs.append(f"qclose_list 0 (1 # 1000000000)%Q (map (fun p => linear_fn p 1 (1 # 20) (1 # 10)) {coq_list([Fraction(p) for p, _ in pe], coq_Q)}) {coq_list([Fraction(e) for _, e in pe], coq_Q)}")
         num = rc["final"]            # the next call starts from where the implementation is (compared above)
         phase += len(rc["nums"])
     if cfg["algo"] == "PPO":
@@ -330,6 +343,10 @@ def compare_model(cfg, impl, vals):
         evs, fin, stopped, total_used = vals[k]
         pcs = vals[k + 1]
         k += 2
+        if cfg["algo"] == "DQN":
+            if not all(vals[k]):
+                probs.append(("exploration-rate", f"call #{ci}: exploration_rate differs from the regenerated linear schedule of the progress: {vals[k]}"))
+            k += 1
         got = [(t["num"], 0 if on else t["gs"]) for t in rc["trains"]]
         if [tuple(e) for e in evs] != got:
             probs.append(("train-events", f"call #{ci}: impl {got[:8]} model {[tuple(e) for e in evs][:8]}"))
